@@ -268,18 +268,19 @@ impl<H: Hasher> BatchMerkleProof<H> {
             return Err(MerkleTreeError::InvalidProof);
         }
 
-        let mut partial_tree_map = BTreeMap::new();
+        let mut buf = [H::Digest::default(); 2];
+        let mut v = BTreeMap::new();
 
+        // replace odd indexes, offset, and sort in ascending order; this also validates the
+        // indexes and the depth of the proof
+        let original_indexes = indexes;
+        let index_map = super::map_indexes(indexes, self.depth as usize)?;
+
+        let mut partial_tree_map = BTreeMap::new();
         for (&i, leaf) in indexes.iter().zip(self.leaves.iter()) {
             partial_tree_map.insert(i + (1 << (self.depth)), *leaf);
         }
 
-        let mut buf = [H::Digest::default(); 2];
-        let mut v = BTreeMap::new();
-
-        // replace odd indexes, offset, and sort in ascending order
-        let original_indexes = indexes;
-        let index_map = super::map_indexes(indexes, self.depth as usize)?;
         let indexes = super::normalize_indexes(indexes);
         if indexes.len() != self.nodes.len() {
             return Err(MerkleTreeError::InvalidProof);
